@@ -222,6 +222,33 @@ func oracleC11(c *SCase) *ev.Failure {
 		}
 		return nil
 	})
+	// Size and Marshal of a message that was sized / marshaled before and modified since (messages WITHOUT
+	// fast-marshal methods: csproto asks the runtime, which has to recompute; what generated Size() does
+	// with its cache is C09's subject)
+	if mt := typeByKey[c.Type]; mt != nil && flavour == "plain" && len(c.Other) > 0 {
+		step("SizeAfterChange", func() *ev.Failure {
+			live, _, _ := c.newOf(c.Value)
+			_ = csproto.Size(live)
+			if _, err := csproto.Marshal(live); err != nil {
+				return nil
+			}
+			FromDynamic(decodeRef(mt.Desc, c.Other), live) // overwrite the fields set in the other value
+			twin, _, _ := c.newOf(c.Value)
+			FromDynamic(decodeRef(mt.Desc, c.Other), twin)
+			want, err := rt.marshal(twin)
+			if err != nil {
+				return nil
+			}
+			if n := csproto.Size(live); n != len(want) {
+				return ev.Failf(shimSig("size-stale-after-modification", c), "csproto.Size of a message that was marshaled and then modified = %d; %s marshals the same contents to %d bytes", n, rt.name, len(want))
+			}
+			got, err := csproto.Marshal(live)
+			if err != nil || len(got) != len(want) {
+				return ev.Failf(shimSig("marshal-stale-after-modification", c), "csproto.Marshal after a modification: %v, %d bytes; %s marshals the same contents to %d bytes", err, len(got), rt.name, len(want))
+			}
+			return nil
+		})
+	}
 	// gRPC codec == package functions
 	step("GrpcCodec", func() *ev.Failure {
 		codec := csproto.GrpcCodec{}
@@ -447,7 +474,7 @@ func shimTypes() []*MsgType {
 	return out
 }
 
-const ruleC11 = "case = (message type: plain [no fast-marshal methods] and fast-marshal types of gogo / Google v1 (legacy) / Google v2 from the schema corpus, Google and gogo well-known types; value; a second value) -> differential against the OWNING runtime called directly: Unmarshal_rt(Marshal_cs(m)) == m, Unmarshal_cs(Marshal_rt(m)) == what the runtime's own Unmarshal gives (fresh and pre-populated destination), Size == len(Marshal), Clone equal and not identical, Equal == the runtime's verdict (false across runtimes; also on unrestricted values with NaN / infinities / -0.0 and with one and the same message on both sides), Reset => empty, MarshalText == the runtime's text in the same process, GrpcCodec == package functions, MsgType == the runtime the type was generated for; unsupported values {nil, 0, \"\", struct{}, *int, []byte, pointer to a plain struct, map, func} x every entry point: documented error / zero result, no panic; first-use classification races are run in a -race binary that re-executes itself; non-trivial = a non-empty message of a type whose dispatch path is not the first probe (plain types), or an unsupported value; distinct by (type, value)"
+const ruleC11 = "case = (message type: plain [no fast-marshal methods] and fast-marshal types of gogo / Google v1 (legacy) / Google v2 from the schema corpus, Google and gogo well-known types; value; a second value) -> differential against the OWNING runtime called directly: Unmarshal_rt(Marshal_cs(m)) == m, Unmarshal_cs(Marshal_rt(m)) == what the runtime's own Unmarshal gives (fresh and pre-populated destination), Size == len(Marshal) - also for a plain message that was marshaled, then modified -, Clone equal and not identical, Equal == the runtime's verdict (false across runtimes; also on unrestricted values with NaN / infinities / -0.0 and with one and the same message on both sides), Reset => empty, MarshalText == the runtime's text in the same process, GrpcCodec == package functions, MsgType == the runtime the type was generated for; unsupported values {nil, 0, \"\", struct{}, *int, []byte, pointer to a plain struct, map, func} x every entry point: documented error / zero result, no panic; first-use classification races are run in a -race binary that re-executes itself; non-trivial = a non-empty message of a type whose dispatch path is not the first probe (plain types), or an unsupported value; distinct by (type, value)"
 
 func TestC11(t *testing.T) {
 	rec := ev.New("C11", ruleC11)
